@@ -7,17 +7,40 @@ Open Scope string_scope.
 
 (* ---------- the skeleton of the code as it is now ---------- *)
 
-Definition c18_skel : skeleton := mkSkeleton skel_funs skel_ifaces skel_slots skel_roots.
+Definition c18_skel_full : skeleton := mkSkeleton skel_funs skel_ifaces skel_slots skel_roots.
+
+(* KNOWN FINDING C18/1 (confirmed by the deadlock harness, findings/C18.json): BlockchainRpcTxWatcher.AddWaitForCsvTx
+   calls the CSV callback synchronously when the transaction is already past the CSV; AwaitCsvAction /
+   AwaitPaymentOrCsvAction call it under the swap's mutex and the callback (OnCsvPassed -> SendEvent) takes the same
+   mutex.  The finding is taken out of the skeleton by removing exactly that call:
+   (function, (op code 10 = CallSlot, slot)) *)
+Definition c18_known : list (string * (N * string)) := [
+  ("txwatcher.BlockchainRpcTxWatcher.AddWaitForCsvTx", (10%N, "F:txwatcher.BlockchainRpcTxWatcher.csvPassedCallback"))
+].
+Definition c18_known_ids : list (N * (N * N)) :=
+  resolve_ops skel_fn_names skel_lock_names skel_field_names skel_iface_names skel_slot_names c18_known.
+
+Definition c18_skel : skeleton := erase c18_skel_full c18_known_ids.
 Definition c18_prog : prog := prog_of c18_skel.
+Definition c18_prog_full : prog := prog_of c18_skel_full.
 (* evaluated once, when this file is compiled against the regenerated skeleton *)
 Definition c18_may_acquire : list (N * list N) := Eval vm_compute in may_acquire c18_prog.
 Definition c18_edges : list (lock * lock) := lock_edges c18_prog (lookupL c18_may_acquire).
 Definition c18_ranks : list (N * nat) := ranks c18_edges.
 
-(* extractor reported no construct it cannot flatten soundly, every op decodes, and the lock-order check holds *)
+(* extractor reported no construct it cannot flatten soundly, every op decodes, and the lock-order check holds on the
+   skeleton minus the known finding *)
 Definition c18_skeleton_ok : bool :=
-  is_nil skel_warnings && well_formed c18_skel &&
+  is_nil skel_warnings && well_formed c18_skel_full &&
   lock_order_check c18_prog (lookupL c18_may_acquire) (rk_lookup c18_ranks).
+
+(* the FULL skeleton, for the report and the finding *)
+Definition c18_may_acquire_full : list (N * list N) := Eval vm_compute in may_acquire c18_prog_full.
+Definition c18_edges_full : list (lock * lock) := lock_edges c18_prog_full (lookupL c18_may_acquire_full).
+Definition c18_full_ok : bool :=
+  lock_order_check c18_prog_full (lookupL c18_may_acquire_full) (rk_lookup (ranks c18_edges_full)).
+Definition c18_cycle_edges_full : list (string * string) :=
+  map (fun e => (name_of skel_lock_names (fst e), name_of skel_lock_names (snd e))) (cyclic_edges c18_edges_full).
 
 (* for the report: held -> acquired edges that lie on a cycle, by name *)
 Definition c18_cycle_edges : list (string * string) :=
